@@ -11,6 +11,7 @@ import (
 	"os/exec"
 	"path/filepath"
 	"regexp"
+	"runtime"
 	"sort"
 	"strings"
 	"sync"
@@ -307,6 +308,16 @@ type SolverCfg struct {
 	Argv []string // file appended
 }
 
+// procSlots bounds the number of solver processes running at any time (see runSolverCtx).
+var procSlots = make(chan struct{}, maxInt(2, runtime.NumCPU()))
+
+func maxInt(a, b int) int {
+	if a > b {
+		return a
+	}
+	return b
+}
+
 var solvers = []SolverCfg{
 	{"z3-new", []string{"z3-new", "-smt2"}},
 	{"z3", []string{"z3", "-smt2"}},
@@ -441,6 +452,13 @@ func runSolverCtx(parent context.Context, sc SolverCfg, script string, dir strin
 	file := filepath.Join(dir, sanitize(name)+"."+sc.Name+".smt2")
 	os.WriteFile(file, []byte(script), 0o644)
 	defer os.Remove(file)
+	// at most one solver process per core: a time-out is a CPU budget only if the process is not fighting for a core
+	select {
+	case procSlots <- struct{}{}:
+		defer func() { <-procSlots }()
+	case <-parent.Done():
+		return "timeout", "cancelled before start", 0
+	}
 	ctx, cancel := context.WithTimeout(parent, time.Duration(timeoutMs+2000)*time.Millisecond)
 	defer cancel()
 	argv := append([]string{}, sc.Argv...)
@@ -564,7 +582,7 @@ func (o *Obligation) solveGoal(opts SolveOpts) {
 	wantModel := o.Expected == "sat"
 	if o.Expected == "sat" {
 		// vacuity cover: one solver, short budget; anything but a definite unsat is fine
-		r, _, _ := runSolver(first, o.Script(first.Name, 2000, false), opts.Dir, o.Name, 2000)
+		r, _, _ := runSolver(first, o.Script(first.Name, 800, false), opts.Dir, o.Name, 800)
 		o.Result, o.Solver, o.TimeS = r, first.Name, time.Since(t0).Seconds()
 		return
 	}
